@@ -24,6 +24,11 @@ type CType struct {
 
 func (t *CType) Locus() map[string]string {
 	l := map[string]string{"opts": t.Pkg.Opts.String(), "kind": t.Def.Kind}
+	if t.Ctx.HasZeroSizeArrayElem(t.Def) {
+		l["zero_size_array_elem"] = "yes"
+	} else {
+		l["zero_size_array_elem"] = "no"
+	}
 	if t.Cell != nil {
 		l["elem"], l["shape"], l["ctx"] = t.Cell.Elem, t.Cell.Shape, t.Cell.Ctx
 		l["family"] = "cell"
